@@ -71,6 +71,9 @@ def _tower_variants(k: int):
         else:
             tw = [(0x0D, std[0][1], std[0][2]), (0x0C, b"", bytes(range((k + i) % 6)))] + extra  # no TCP floor
         towers.append(tw)
+    if towers and k % 5 == 3:
+        # an endpoint listed more than once (a multi-homed or doubly registered server): identical towers [A, .., A] / [A, A, ..]
+        towers = towers + [towers[0]] if k % 2 else [towers[0]] + towers
     return towers
 
 
